@@ -461,16 +461,22 @@ def activity(isotope, mass, env, exposure, rest_times):
             # Column V: nv2s2t+L2*t
             V = (env.fluence*effectiveXS*3600*1e-24+lam)*exposure
             # Column W: L/(L-nvs1+nvs2)
-            W = lam/(lam-flux*initialXS*3600*1e-24+env.fluence*effectiveXS*3600*1e-24)
             # Column X: V#*[e(-S#)-e(U#)]
-            if abs(U) < 1e-10 and abs(V) < 1e-10:
-                precision_correction = W * (V-U+(V+U)/2)
+            # W*(exp(-U)-exp(-V)) with W = lam*exposure/(V-U) is 0/0 when the target burns
+            # as fast as the product is lost, and loses precision when U and V are small
+            # or close.  Factor out the larger exponential and use expm1 for the rest
+            # (as for "b" mode above); the value at V == U is the limit.
+            x = V - U
+            if x > 0:
+                precision_correction = lam*exposure * exp(-U) * expm1(-x)/-x
+            elif x < 0:
+                precision_correction = lam*exposure * exp(-V) * expm1(x)/x
             else:
-                precision_correction = W * (exp(-U)-exp(-V))
+                precision_correction = lam*exposure * exp(-U)
 
             activity = root*precision_correction
             if activity < 0:
-                msg = "activity %g less than zero for %g"%(activity, isotope)
+                msg = "activity %g less than zero for %s"%(activity, isotope)
                 raise RuntimeError(msg)
             #print(ai.thermalXS_parent, ai.resonance_parent, exposure)
             #print("P", effectiveXS, "U", U, "V", V, "W", W, "X",
